@@ -153,19 +153,19 @@ func EventsString(evs []Event) string {
 // Constructors.
 func ObjStart(l int, bt structform.BaseType) Event { return Event{K: KObjStart, Len: l, BT: bt} }
 func ArrStart(l int, bt structform.BaseType) Event { return Event{K: KArrStart, Len: l, BT: bt} }
-func ObjEnd() Event                                 { return Event{K: KObjEnd} }
-func ArrEnd() Event                                 { return Event{K: KArrEnd} }
-func Key(s string) Event                            { return Event{K: KKey, S: s} }
-func KeyRef(s string) Event                         { return Event{K: KKey, S: s, Ref: true} }
-func Nil() Event                                    { return Event{K: KNil} }
-func Bool(b bool) Event                             { return Event{K: KBool, B: b} }
-func Str(s string) Event                            { return Event{K: KString, S: s} }
-func StrRef(s string) Event                         { return Event{K: KString, S: s, Ref: true} }
-func SInt(k Kind, i int64) Event                    { return Event{K: k, I: i} }
-func UInt(k Kind, u uint64) Event                   { return Event{K: k, U: u} }
-func F32(bits uint32) Event                         { return Event{K: KFloat32, U: uint64(bits)} }
-func F64(bits uint64) Event                         { return Event{K: KFloat64, U: bits} }
-func Ext(k Kind, v interface{}) Event               { return Event{K: k, Ext: v} }
+func ObjEnd() Event                                { return Event{K: KObjEnd} }
+func ArrEnd() Event                                { return Event{K: KArrEnd} }
+func Key(s string) Event                           { return Event{K: KKey, S: s} }
+func KeyRef(s string) Event                        { return Event{K: KKey, S: s, Ref: true} }
+func Nil() Event                                   { return Event{K: KNil} }
+func Bool(b bool) Event                            { return Event{K: KBool, B: b} }
+func Str(s string) Event                           { return Event{K: KString, S: s} }
+func StrRef(s string) Event                        { return Event{K: KString, S: s, Ref: true} }
+func SInt(k Kind, i int64) Event                   { return Event{K: k, I: i} }
+func UInt(k Kind, u uint64) Event                  { return Event{K: k, U: u} }
+func F32(bits uint32) Event                        { return Event{K: KFloat32, U: uint64(bits)} }
+func F64(bits uint64) Event                        { return Event{K: KFloat64, U: bits} }
+func Ext(k Kind, v interface{}) Event              { return Event{K: k, Ext: v} }
 
 // Recorder records events. It implements Visitor and StringRefVisitor (by-reference
 // strings are copied inside the callback, as the contract demands).
@@ -225,27 +225,31 @@ func (r *Recorder) OnFloat64(f float64) error                         { return r
 // PlainRecorder implements only structform.Visitor (no by-reference strings, no extended events).
 type PlainRecorder struct{ R *Recorder }
 
-func (p PlainRecorder) OnObjectStart(l int, bt structform.BaseType) error { return p.R.OnObjectStart(l, bt) }
-func (p PlainRecorder) OnObjectFinished() error                           { return p.R.OnObjectFinished() }
-func (p PlainRecorder) OnKey(s string) error                              { return p.R.OnKey(s) }
-func (p PlainRecorder) OnArrayStart(l int, bt structform.BaseType) error  { return p.R.OnArrayStart(l, bt) }
-func (p PlainRecorder) OnArrayFinished() error                            { return p.R.OnArrayFinished() }
-func (p PlainRecorder) OnNil() error                                      { return p.R.OnNil() }
-func (p PlainRecorder) OnBool(b bool) error                               { return p.R.OnBool(b) }
-func (p PlainRecorder) OnString(s string) error                           { return p.R.OnString(s) }
-func (p PlainRecorder) OnInt8(i int8) error                               { return p.R.OnInt8(i) }
-func (p PlainRecorder) OnInt16(i int16) error                             { return p.R.OnInt16(i) }
-func (p PlainRecorder) OnInt32(i int32) error                             { return p.R.OnInt32(i) }
-func (p PlainRecorder) OnInt64(i int64) error                             { return p.R.OnInt64(i) }
-func (p PlainRecorder) OnInt(i int) error                                 { return p.R.OnInt(i) }
-func (p PlainRecorder) OnByte(b byte) error                               { return p.R.OnByte(b) }
-func (p PlainRecorder) OnUint8(u uint8) error                             { return p.R.OnUint8(u) }
-func (p PlainRecorder) OnUint16(u uint16) error                           { return p.R.OnUint16(u) }
-func (p PlainRecorder) OnUint32(u uint32) error                           { return p.R.OnUint32(u) }
-func (p PlainRecorder) OnUint64(u uint64) error                           { return p.R.OnUint64(u) }
-func (p PlainRecorder) OnUint(u uint) error                               { return p.R.OnUint(u) }
-func (p PlainRecorder) OnFloat32(f float32) error                         { return p.R.OnFloat32(f) }
-func (p PlainRecorder) OnFloat64(f float64) error                         { return p.R.OnFloat64(f) }
+func (p PlainRecorder) OnObjectStart(l int, bt structform.BaseType) error {
+	return p.R.OnObjectStart(l, bt)
+}
+func (p PlainRecorder) OnObjectFinished() error { return p.R.OnObjectFinished() }
+func (p PlainRecorder) OnKey(s string) error    { return p.R.OnKey(s) }
+func (p PlainRecorder) OnArrayStart(l int, bt structform.BaseType) error {
+	return p.R.OnArrayStart(l, bt)
+}
+func (p PlainRecorder) OnArrayFinished() error    { return p.R.OnArrayFinished() }
+func (p PlainRecorder) OnNil() error              { return p.R.OnNil() }
+func (p PlainRecorder) OnBool(b bool) error       { return p.R.OnBool(b) }
+func (p PlainRecorder) OnString(s string) error   { return p.R.OnString(s) }
+func (p PlainRecorder) OnInt8(i int8) error       { return p.R.OnInt8(i) }
+func (p PlainRecorder) OnInt16(i int16) error     { return p.R.OnInt16(i) }
+func (p PlainRecorder) OnInt32(i int32) error     { return p.R.OnInt32(i) }
+func (p PlainRecorder) OnInt64(i int64) error     { return p.R.OnInt64(i) }
+func (p PlainRecorder) OnInt(i int) error         { return p.R.OnInt(i) }
+func (p PlainRecorder) OnByte(b byte) error       { return p.R.OnByte(b) }
+func (p PlainRecorder) OnUint8(u uint8) error     { return p.R.OnUint8(u) }
+func (p PlainRecorder) OnUint16(u uint16) error   { return p.R.OnUint16(u) }
+func (p PlainRecorder) OnUint32(u uint32) error   { return p.R.OnUint32(u) }
+func (p PlainRecorder) OnUint64(u uint64) error   { return p.R.OnUint64(u) }
+func (p PlainRecorder) OnUint(u uint) error       { return p.R.OnUint(u) }
+func (p PlainRecorder) OnFloat32(f float32) error { return p.R.OnFloat32(f) }
+func (p PlainRecorder) OnFloat64(f float64) error { return p.R.OnFloat64(f) }
 
 // Drive plays events into v until the first error; it returns the index of the
 // failing event (len(evs) if none) and the error. scratch, if non-nil, is used to
